@@ -101,11 +101,7 @@ Definition wrap_int (bits z : Z) : Z :=
   let r := z mod 2 ^ bits in if r <? 2 ^ (bits - 1) then r else r - 2 ^ bits.
 Definition wrap_uint (bits z : Z) : Z := z mod 2 ^ bits.
 
-(* strconv.FormatFloat(f, 'f', -1, 64) *)
-Definition fmt_float_f (m e : Z) : bytes :=
-  if m =? 0 then [b_zero] else
-  let ds := digits_of_N (Z.to_N (Z.abs m)) in
-  (if m <? 0 then [b_minus] else []) ++ fmt_f ds (Z.of_nat (length ds) + e).
+(* strconv.FormatFloat(f, 'f', -1, 64) is Strconv.fmt_float_f (shared with the ${} callback of C16) *)
 
 Definition Z_of_digits (s : bytes) : Z := Z.of_N (N_of_digits s).
 Definition Z_of_octal (s : bytes) : Z :=
@@ -469,13 +465,8 @@ Definition bind_value_r (req : bool) (text : bytes) (T : ftype) : res fval :=
   end.
 Definition bind_value (text : bytes) (T : ftype) : res fval := bind_value_r true text T.
 
-(* FormatAny as the ${} callback applies it.  [fx] = repair D-C17g (fixes/D-C17g.diff): a float64 is
-   spliced in plain digits, strconv.FormatFloat(f, 'f', -1, 64), instead of %v's exponent form *)
-Definition format_cfg (fx : bool) (v : cval) : res bytes :=
-  match v with
-  | VDec m e => if fx then Ok (fmt_float_f m e) else format_any v
-  | _ => format_any v
-  end.
+(* FormatAny as the ${} callback applies it is Strconv.format_cfg:  [fx] = repair D-C17g (fixes/D-C17g.diff), a
+   float64 is spliced in plain digits, strconv.FormatFloat(f, 'f', -1, 64), instead of %v's exponent form *)
 
 (* the value route for a configured value: format, then the text is bound *)
 Definition bind_formatted (fx : bool) (v : cval) (T : ftype) : res fval :=
@@ -483,18 +474,9 @@ Definition bind_formatted (fx : bool) (v : cval) (T : ftype) : res fval :=
 
 Definition ph (key : bytes) : bytes := b_dollar :: b_lbrace :: key ++ [b_rbrace].
 
-(* the callback handed to ReplaceAllContent: Placeholder.resolve with the formatting of the tree at hand
-   (resolve_fx false = resolve, proved) *)
-Definition resolve_fx (fx : bool) (cfg : bytes -> cval) (exp : bytes) : res bytes :=
-  let (key, dflt) := split_first b_colon exp in
-  let v := cfg key in
-  rbind (if absent v then
-           match dflt with
-           | Some (c :: d) => parse_any (c :: d)
-           | _ => Ok v
-           end
-         else Ok v)
-        (fun v' => match v' with VNull => Ok [] | _ => format_cfg fx v' end).
+(* the callback handed to ReplaceAllContent is Placeholder.resolve, whose first argument is the variant of the
+   tree at hand; the name of earlier rounds is kept as an abbreviation *)
+Notation resolve_fx := resolve (only parsing).
 
 (* no  #{...}  left in the text: the expression stage (C18) leaves it alone *)
 Definition expr_free (text : bytes) : bool :=
@@ -509,7 +491,7 @@ Definition bind_tag_value (fx : bool) (cfg : bytes -> cval) (req : bool) (tagstr
   match find_first b_dollar tagstr with
   | None => bound tagstr
   | Some _ =>
-    match replace_all_content b_dollar (resolve_fx fx cfg) (Some repo_budget) O tagstr with
+    match replace_all_content b_dollar (resolve fx cfg) (Some repo_budget) O tagstr with
     | Done text => bound text
     | Panicked => Some Panic
     | _ => Some Err
